@@ -313,7 +313,7 @@ def header(ctx):
     need = [("1024", "the first block is checked to be 1024 bytes long"), ("NIST_1A", "the NIST_1A magic is checked"),
             ("end_head", "a missing end_head is rejected")]
     for token, what in need:
-        ctx.check(token in txt, R, f, f.node, what, "no raise in read_header is conditioned on %s" % token)
+        ctx.check(token in txt, R, f, f.node, what, "no raise in read_header is conditioned on %s" % token, structural=True)
     # header size below 1024 is rejected
     hs = [r for g, r in ev.raises if "< 1024" in S.show(g) and "int(" in S.show(g)]
     ctx.check(bool(hs), R, f, f.node, "a header size below 1024 is rejected", "no raise is conditioned on the header size being below 1024")
@@ -321,7 +321,7 @@ def header(ctx):
     last = ev.raises[-1][0] if ev.raises else None
     mand = [g for g, r in ev.raises if all(k in S.show(g) for k in ("sampcount", "samprate", "chancount"))]
     ctx.check(bool(mand), R, f, f.node, "a header lacking sample_count / sample_rate / channel_count is rejected",
-              "no raise is conditioned on the mandatory fields sample_count, sample_rate and channel_count")
+              "no raise is conditioned on the mandatory fields sample_count, sample_rate and channel_count", structural=True)
     # sphere_read_signal passes IOError objects
     g = prog.func("_sphere.sphere_read_signal")
     n_err = 0
